@@ -7,7 +7,10 @@ for f in sorted(glob.glob('/verif/seeded/*/meta.json')):
     def cl(x, n): return re.sub(r"\s+", " ", x).replace("|", "/")[:n]
     al = m.get('checks_run', {}).get(m['property'], {}).get('alarms', [])
     keys = sorted({re.sub(r"^VIOLATION property=\S+ replay=\S+ ", "", a)[:70] for a in al})[:1]
-    rows.append("| %s | %s | %s | %s |" % (sid, cl(m['summary'], 170), cl(m['needs'], 150), ", ".join(m.get('detected_by', [])) or "**missed**"))
+    rows.append("| %s | %s | %s | %s |" % (sid, cl(m['summary'], 170), cl(m['needs'], 150), (", ".join(m.get('detected_by', [])) or "**missed**") + (" (after extending the generators)" if m.get('missed_at_first') else "")))
+for f in sorted(glob.glob('/verif/seeded_retired/*/meta.json')):
+    m = json.load(open(f)); sid = f.split('/')[-2]
+    rows.append("| %s | %s | %s | %s |" % (sid, cl(m['summary'], 170), cl(m['needs'], 150), "retired: no defect on the repaired tree (was caught by %s before the repair)" % ", ".join(m.get('detected_by', []))))
 table = "| id | change | needs | caught by (quick) |\n|----|--------|-------|-------------------|\n" + "\n".join(rows)
 p = '/verif/DESIGN.md'; s = open(p).read()
 a = s.index("<!-- SEEDED-TABLE-BEGIN -->"); z = s.index("<!-- SEEDED-TABLE-END -->")
